@@ -75,8 +75,9 @@ LIMITS = (1, 2)
 
 NAMES = {
     1: (("",), (".10",)),
-    2: (("", ".0"), (".9", ".10"), ("", ".10"), (".99", ".100")),
-    3: (("", ".0", ".1"), (".8", ".9", ".10"), ("", ".9", ".10"), (".9", ".10", ".11"), (".99", ".100", ".101")),
+    2: (("", ".0"), (".9", ".10"), ("", ".10"), (".99", ".100"), ("", ".2"), (".1", ".12")),
+    3: (("", ".0", ".1"), (".8", ".9", ".10"), ("", ".9", ".10"), (".9", ".10", ".11"), (".99", ".100", ".101"),
+        ("", ".1", ".2"), (".1", ".2", ".12")),     # suffix digits that are also characters of '.gz'/'.bz2'/'.xz' extensions
 }
 FMT_EXT = {"p": ("",), "g": (".gz",), "b": (".bz2",), "pg": ("", ".gz"), "x": (".xz",), "pb": ("", ".bz2")}
 
